@@ -1,7 +1,17 @@
 (* Cell semantics of the 31 EEMS data commands (mpilot/libraries/eems/basic.py, fuzzy.py) over exact
    rationals.  A cell is [None] when missing (masked) and [Some q] otherwise; what numpy keeps underneath a
-   masked cell is not part of the model: every command is an instance of the mask-respecting combinator
-   [cw], and the correspondence (which varies the hidden payloads) is what ties the code to that discipline.
+   masked cell is not part of the model (the correspondence, which varies the hidden payloads, is what ties
+   the code to that discipline).
+
+   Every command is BY CONSTRUCTION an instance of one mask-respecting combinator:
+       run c ins = match pre c ins with Some e => error e
+                   | None => { dtype := odt c ins; shape := shape of the first input;
+                               cells := cw (colf c ins) (columns of the inputs) }
+   where [pre] are the checks of the command in the order the code performs them, [colf c ins] is the
+   function applied to the values of one column (it may depend on whole-array statistics of the inputs:
+   min, max, mean, ... of the valid cells) and [cw] makes a result cell missing when any cell of its column is
+   missing or the operation is undefined there.  Result values and statistics are kept in lowest terms
+   ([Qred]) so that equal numbers are equal terms.
    IEEE rounding, overflow and NaN are not modelled (exact arithmetic); sqrt comes in as the oracle [sigma]. *)
 From Coq Require Import QArith Qminmax Qabs List Bool ZArith.
 Import ListNotations.
@@ -20,10 +30,17 @@ Arguments ROk {A} a. Arguments RErr {A} e.
 
 (* ---------- rational helpers ---------- *)
 Definition qsum (l : list Q) : Q := fold_right Qplus 0 l.
+Definition qprod (l : list Q) : Q := fold_right Qmult 1 l.
 Definition qlen (l : list Q) : Q := inject_Z (Z.of_nat (length l)).
 Definition qmean (l : list Q) : Q := qsum l / qlen l.
-Definition qminl (l : list Q) : option Q := match l with [] => None | x :: t => Some (fold_right Qmin x t) end.
-Definition qmaxl (l : list Q) : option Q := match l with [] => None | x :: t => Some (fold_right Qmax x t) end.
+Fixpoint qminl (l : list Q) : option Q :=
+  match l with [] => None | x :: t => match qminl t with None => Some x | Some m => Some (Qmin x m) end end.
+Fixpoint qmaxl (l : list Q) : option Q :=
+  match l with [] => None | x :: t => match qmaxl t with None => Some x | Some m => Some (Qmax x m) end end.
+(* statistics in lowest terms *)
+Definition lo_of (l : list Q) : option Q := option_map Qred (qminl l).
+Definition hi_of (l : list Q) : option Q := option_map Qred (qmaxl l).
+Definition mean_of (l : list Q) : Q := Qred (qmean l).
 (* insure_fuzzy(arr, lo, hi): arr[arr > hi] = hi; then arr[arr < lo] = lo *)
 Definition clamp2 (lo hi x : Q) : Q :=
   let y := if Qlt_le_dec hi x then hi else x in if Qlt_le_dec y lo then lo else y.
@@ -44,17 +61,14 @@ Fixpoint all_some (c : list cell) : option (list Q) :=
   end.
 Fixpoint zipw {A B C} (f : A -> B -> C) (a : list A) (b : list B) : list C :=
   match a, b with x :: a', y :: b' => f x y :: zipw f a' b' | _, _ => [] end.
-(* columns: one cell of every input, for each position *)
-Definition cols_of (ins : list (list cell)) : list (list cell) :=
-  match ins with
-  | [] => []
-  | a :: _ => fold_right (fun x acc => zipw cons x acc) (map (fun _ => []) a) ins
-  end.
+(* columns: one cell of every input, for each position of the first input *)
+Definition ncells (ins : list (list cell)) : nat := match ins with [] => 0%nat | a :: _ => length a end.
+Definition col_at (ins : list (list cell)) (i : nat) : list cell := map (fun a => nth i a None) ins.
+Definition cols_of (ins : list (list cell)) : list (list cell) := map (col_at ins) (seq 0 (ncells ins)).
 (* result cell: missing when any input cell of the column is missing, or the operation is undefined there *)
-Definition cw (f : list Q -> option Q) (cols : list (list cell)) : list cell :=
-  map (fun col => match all_some col with Some vs => f vs | None => None end) cols.
-Definition cw1 (f : Q -> option Q) (a : list cell) : list cell :=
-  map (fun c => match c with Some x => f x | None => None end) a.
+Definition cw_cell (f : list Q -> option Q) (col : list cell) : cell :=
+  match all_some col with Some vs => option_map Qred (f vs) | None => None end.
+Definition cw (f : list Q -> option Q) (cols : list (list cell)) : list cell := map (cw_cell f) cols.
 
 Fixpoint shape_eqb (a b : list nat) : bool :=
   match a, b with [], [] => true | x :: a', y :: b' => Nat.eqb x y && shape_eqb a' b' | _, _ => false end.
@@ -65,26 +79,21 @@ Definition validate_shapes (ins : list arr) : option err :=
   | [_] => None
   | a :: _ => if forallb (fun b => shape_eqb (a_shape b) (a_shape a)) ins then None else Some EMixedShapes
   end.
-Definition all_int (ins : list arr) : bool := forallb (fun a => match a_dt a with DInt => true | DFloat => false end) ins.
+Definition is_int (d : dtype) : bool := match d with DInt => true | DFloat => false end.
+Definition all_int (ins : list arr) : bool := forallb (fun a => is_int (a_dt a)) ins.
 Definition join_dt (ins : list arr) : dtype := if all_int ins then DInt else DFloat.
 Definition first_shape (ins : list arr) : list nat := match ins with a :: _ => a_shape a | [] => [] end.
-Definition nary (dt : dtype) (f : list Q -> option Q) (ins : list arr) : res arr :=
-  match validate_shapes ins with
-  | Some e => RErr e
-  | None => ROk {| a_dt := dt; a_shape := first_shape ins; a_cells := cw f (cols_of (map a_cells ins)) |}
-  end.
-Definition unary (dt : dtype) (f : Q -> option Q) (a : arr) : arr :=
-  {| a_dt := dt; a_shape := a_shape a; a_cells := cw1 f (a_cells a) |}.
 
 (* ---------- per-cell definitions ---------- *)
 Definition wsum (ws vs : list Q) : Q := qsum (zipw Qmult ws vs).
-Definition c_div (vs : list Q) : option Q :=
-  match vs with [a; b] => if Qeq_bool b 0 then None else Some (a / b) | _ => None end.
-Definition c_sub (vs : list Q) : option Q := match vs with [a; b] => Some (a - b) | _ => None end.
 Definition divq (a b : Q) : option Q := if Qeq_bool b 0 then None else Some (a / b).   (* numpy.ma division: masked on a zero divisor *)
+Definition c_div (vs : list Q) : option Q := match vs with [a; b] => divq a b | _ => None end.
+Definition c_sub (vs : list Q) : option Q := match vs with [a; b] => Some (a - b) | _ => None end.
 (* the linear map through (x1,y1) (x2,y2): result = (x - x1) * (y2 - y1) / (x2 - x1) + y1 *)
 Definition lin (x1 y1 x2 y2 x : Q) : option Q :=
   match divq ((x - x1) * (y2 - y1)) (x2 - x1) with Some q => Some (q + y1) | None => None end.
+(* a one-input command applies [f] to the single value of the column *)
+Definition u1 (f : Q -> option Q) (vs : list Q) : option Q := match vs with [x] => f x | _ => None end.
 
 (* piecewise-linear curve through control points sorted by raw value; flat outside *)
 (* sorted(zip(raw, normal)): tuples compare lexicographically *)
@@ -112,96 +121,66 @@ Definition curve_checks (raws normals : list Q) : option err :=
   if negb (Nat.eqb (length raws) (length normals)) then Some EMixedLengths
   else if has_dupq raws then Some EDuplicateRaw
   else match raws with [] => Some EUnexpected | _ => None end.   (* value_pairs[0]: IndexError *)
-Definition curve (raws normals : list Q) (a : arr) : res arr :=
-  match curve_checks raws normals with
-  | Some e => RErr e
-  | None => ROk (unary DFloat (interp (sort_pts (zipw pair raws normals))) a)
-  end.
+Definition curve_pts (raws normals : list Q) : list (Q * Q) := sort_pts (zipw pair raws normals).
+Definition cat_checks (raws normals : list Q) : option err :=
+  if negb (Nat.eqb (length raws) (length normals)) then Some EMixedLengths
+  else if has_dupq raws then Some EDuplicateRaw else None.
+(* later assignments win: result[data == raw] = normal, in the order of the lists *)
 Fixpoint lookup_cat (raws normals : list Q) (d x : Q) : Q :=
   match raws, normals with
   | r :: rs, n :: ns => if Qeq_bool x r then n else lookup_cat rs ns d x
   | _, _ => d
   end.
-Definition cat (raws normals : list Q) (d : Q) (a : arr) : res arr :=
-  if negb (Nat.eqb (length raws) (length normals)) then RErr EMixedLengths
-  else if has_dupq raws then RErr EDuplicateRaw
-  else ROk (unary DFloat (fun x => Some (lookup_cat raws normals d x)) a).
 
-(* mean-to-mid control points *)
+(* mean-to-mid control points from the statistics of the valid cells: error, or (raw values, normal values) *)
 Fixpoint del_at {A} (i : nat) (l : list A) : list A :=
   match i, l with 0%nat, _ :: t => t | S j, x :: t => x :: del_at j t | _, [] => [] end.
-Definition mean_to_mid (ignore_zeros : bool) (normals : list Q) (a : arr) : res arr :=
-  let vals := somes (a_cells a) in
-  match qminl vals, qmaxl vals with
+Definition mtm_raws (ignore_zeros : bool) (normals vals : list Q) : res (list Q * list Q) :=
+  match lo_of vals, hi_of vals with
   | Some lo, Some hi =>
     let used := if ignore_zeros then filter (fun x => negb (Qeq_bool x 0)) vals else vals in
     match used with
     | [] => RErr EUnexpected
     | _ =>
-      let mu := qmean used in
+      let mu := mean_of used in
       let below := filter (fun x => Qle_bool x mu) used in
       let above := filter (fun x => negb (Qle_bool x mu)) used in
       match above, below with
       | [], _ | _, [] => RErr EUnexpected        (* fewer than two distinct values among the cells used *)
       | _, _ =>
         if negb (Nat.eqb (length normals) 5) then RErr EUnexpected else
-        let raws := [lo; qmean below; mu; qmean above; hi] in
+        let raws := [lo; mean_of below; mu; mean_of above; hi] in
         let '(raws1, normals1) :=
             if Qeq_bool (nth 4 raws 0) (nth 3 raws 0) then (del_at 3 raws, del_at 3 normals) else (raws, normals) in
         let '(raws2, normals2) :=
             if Qeq_bool (nth 0 raws1 0) (nth 1 raws1 0) then (del_at 1 raws1, del_at 1 normals1) else (raws1, normals1) in
-        curve raws2 normals2 a
+        ROk (raws2, normals2)
       end
     end
   | _, _ => RErr EUnexpected
   end.
+Definition mtm_checks (iz : bool) (normals vals : list Q) : option err :=
+  match mtm_raws iz normals vals with RErr e => Some e | ROk (r, n) => curve_checks r n end.
+Definition mtm_pts (iz : bool) (normals vals : list Q) : list (Q * Q) :=
+  match mtm_raws iz normals vals with RErr _ => [] | ROk (r, n) => curve_pts r n end.
 
 Definition opt (d : Q) (o : option Q) : Q := match o with Some x => x | None => d end.
 (* NormalizeZScore; sigma = numpy.ma.std of the input (oracle), mu computed *)
-Definition zscore (sigma : Q) (t f s e : Q) (a : arr) : arr :=
-  let mu := qmean (somes (a_cells a)) in
+Definition zscore_f (sigma mu t f s e : Q) (x : Q) : option Q :=
   let x1 := mu + sigma * t in let x2 := mu + sigma * f in
-  unary DFloat (fun x => match lin x1 e x2 s x with Some y => Some (clamp2 s e y) | None => None end) a.
-Definition curve_zscore (sigma : Q) (zs normals : list Q) (a : arr) : res arr :=
-  if negb (Nat.eqb (length zs) (length normals)) then RErr EMixedLengths
-  else match zs with
-       | [] => RErr EUnexpected
-       | _ => let mu := qmean (somes (a_cells a)) in
-              ROk (unary DFloat (interp (sort_pts (zipw pair (map (fun z => mu + z * sigma) zs) normals))) a)
-       end.
+  match lin x1 e x2 s x with Some y => Some (clamp2 s e y) | None => None end.
+Definition cz_pts (sigma mu : Q) (zs normals : list Q) : list (Q * Q) :=
+  sort_pts (zipw pair (map (fun z => mu + z * sigma) zs) normals).
 
 Inductive direction := DirNone | DirLowToHigh | DirHighToLow | DirBad.
-Definition cvt_to_fuzzy (t f : option Q) (d : direction) (a : arr) : res arr :=
-  match d with
-  | DirBad => RErr EInvalidDirection
-  | _ =>
-    let vals := somes (a_cells a) in
-    match qminl vals, qmaxl vals with
-    | Some lo, Some hi =>
-      let high_to_low := match d with DirHighToLow => true | _ => false end in
-      let fv := opt (if high_to_low then hi else lo) f in
-      let tv := opt (if high_to_low then lo else hi) t in
-      if Qeq_bool tv fv then RErr EInvalidThresholds
-      else ROk (unary DFloat (fun x => match lin tv 1 fv (-1) x with Some y => Some (fz y) | None => None end) a)
-    | _, _ => RErr EUnexpected
-    end
+Definition ctf_thresholds (t f : option Q) (d : direction) (vals : list Q) : option (Q * Q) :=
+  match lo_of vals, hi_of vals with
+  | Some lo, Some hi =>
+    let high_to_low := match d with DirHighToLow => true | _ => false end in
+    Some (opt (if high_to_low then lo else hi) t, opt (if high_to_low then hi else lo) f)
+  | _, _ => None
   end.
-Definition cvt_to_binary (thr : Q) (d : direction) (a : arr) : res arr :=
-  match d with
-  | DirLowToHigh => ROk (unary DFloat (fun x => Some (if Qlt_le_dec x thr then 0 else 1)) a)
-  | DirHighToLow => ROk (unary DFloat (fun x => Some (if Qlt_le_dec x thr then 1 else 0)) a)
-  | _ => RErr EInvalidDirection
-  end.
-Definition cvt_from_fuzzy (t f : Q) (a : arr) : res arr :=
-  if Qeq_bool t f then RErr EInvalidThresholds
-  else ROk (unary DFloat (fun x => lin 1 t (-1) f x) a).
-
-Definition fzres (r : res arr) : res arr :=
-  match r with ROk a => ROk (unary DFloat (fun x => Some (fz x)) a) | RErr e => RErr e end.
-
-Definition weighted (ins : list arr) (ws : list (Q * dtype)) (k : res arr) : res arr :=
-  if negb (Nat.eqb (length ws) (length ins)) then RErr EMismatchedWeights else k.
-Definition ws_int (ws : list (Q * dtype)) : bool := forallb (fun w => match snd w with DInt => true | DFloat => false end) ws.
+Definition ofz (o : option Q) : option Q := option_map fz o.
 
 (* FuzzySelectedUnion per column: sort the stacked layer, slice, mean *)
 Definition sel_union (truest : bool) (k : nat) (vs : list Q) : option Q :=
@@ -236,65 +215,134 @@ Inductive ecmd :=
 | FuzzyOr | FuzzyAnd | FuzzyXOr | FuzzyNot
 | CvtFromFuzzy (t f : Q).
 
-Definition one (ins : list arr) (k : arr -> res arr) : res arr :=
-  match ins with [a] => k a | _ => RErr EUnexpected end.
+Definition ws_int (ws : list (Q * dtype)) : bool := forallb (fun w => is_int (snd w)) ws.
+Definition wvals (ws : list (Q * dtype)) : list Q := map fst ws.
+
+(* first failing check *)
+Definition orelse (a b : option err) : option err := match a with Some e => Some e | None => b end.
+Infix "|>" := orelse (at level 60, right associativity).
+Definition single (ins : list arr) : option err := match ins with [_] => None | _ => Some EUnexpected end.
+Definition pair_in (ins : list arr) : option err := match ins with [_; _] => None | _ => Some EUnexpected end.
+Definition weights_ok (ws : list (Q * dtype)) (ins : list arr) : option err :=
+  if negb (Nat.eqb (length ws) (length ins)) then Some EMismatchedWeights else None.
+Definition vals_of (ins : list arr) : list Q := match ins with [a] => somes (a_cells a) | _ => [] end.
+Definition need_minmax (vals : list Q) : option err :=
+  match lo_of vals, hi_of vals with Some _, Some _ => None | _, _ => Some EUnexpected end.
+Definition first_dt (ins : list arr) : dtype := match ins with a :: _ => a_dt a | [] => DFloat end.
+
+(* the checks of a command, in the order of the code *)
+Definition pre (c : ecmd) (ins : list arr) : option err :=
+  let vals := vals_of ins in
+  match c with
+  | Copy => single ins
+  | AMinusB | ADividedByB => pair_in ins |> validate_shapes ins
+  | Sum | Multiply | Minimum | Maximum | Mean | FuzzyUnion | FuzzyOr | FuzzyAnd => validate_shapes ins
+  | WeightedSum ws | WeightedMean ws | FuzzyWeightedUnion ws => weights_ok ws ins |> validate_shapes ins
+  | Normalize _ _ => single ins |> need_minmax vals
+  | NormalizeZScore _ _ _ _ _ | CvtToFuzzyZScore _ _ _ => single ins
+  | NormalizeCat raws normals _ | CvtToFuzzyCat raws normals _ => single ins |> cat_checks raws normals
+  | NormalizeCurve raws normals | CvtToFuzzyCurve raws normals => single ins |> curve_checks raws normals
+  | NormalizeMeanToMid iz normals | CvtToFuzzyMeanToMid iz normals => single ins |> mtm_checks iz normals vals
+  | NormalizeCurveZScore _ zs normals | CvtToFuzzyCurveZScore _ zs normals =>
+      single ins |> (if negb (Nat.eqb (length zs) (length normals)) then Some EMixedLengths
+                     else match zs with [] => Some EUnexpected | _ => None end)
+  | CvtToFuzzy t f d =>
+      single ins |> match d with
+                    | DirBad => Some EInvalidDirection
+                    | _ => match ctf_thresholds t f d vals with
+                           | None => Some EUnexpected
+                           | Some (tv, fv) => if Qeq_bool tv fv then Some EInvalidThresholds else None
+                           end
+                    end
+  | CvtToBinary _ d => single ins |> match d with DirLowToHigh | DirHighToLow => None | _ => Some EInvalidDirection end
+  | FuzzySelectedUnion truest k =>
+      validate_shapes ins |> (if (Z.of_nat (length ins) <? k)%Z then Some EInvalidNumber
+                              else match truest with
+                                   | None => Some EInvalidTruest
+                                   | Some _ => if (k <? 1)%Z then Some EUnexpected else None   (* k <= 0: outside the definition *)
+                                   end)
+  | FuzzyXOr => validate_shapes ins |> match ins with [_] => Some EUnexpected | _ => None end
+  | FuzzyNot => single ins
+  | CvtFromFuzzy t f => single ins |> (if Qeq_bool t f then Some EInvalidThresholds else None)
+  end.
+
+(* element type of the result *)
+Definition odt (c : ecmd) (ins : list arr) : dtype :=
+  match c with
+  | Copy => first_dt ins
+  | AMinusB | Sum | Multiply | Minimum | Maximum => join_dt ins
+  | WeightedSum ws => if all_int ins && ws_int ws then DInt else DFloat
+  | _ => DFloat
+  end.
+
+(* what is computed from the values of one column *)
+Definition colf (c : ecmd) (ins : list arr) : list Q -> option Q :=
+  let vals := vals_of ins in
+  let mu := mean_of vals in
+  match c with
+  | Copy => u1 Some
+  | AMinusB => c_sub
+  | ADividedByB => c_div
+  | Sum => fun vs => Some (qsum vs)
+  | Multiply => fun vs => Some (qprod vs)
+  | Minimum => qminl
+  | Maximum => qmaxl
+  | Mean => fun vs => Some (qmean vs)
+  | WeightedSum ws => fun vs => Some (wsum (wvals ws) vs)
+  | WeightedMean ws => fun vs => divq (wsum (wvals ws) vs) (qsum (wvals ws))
+  | Normalize s e =>
+      let s := opt 0 s in let e := opt 1 e in
+      u1 (fun x => match divq ((x - opt 0 (lo_of vals)) * (s - e)) (opt 0 (lo_of vals) - opt 0 (hi_of vals)) with
+                   | Some q => Some (q + s) | None => None end)
+  | NormalizeZScore sigma t f s e => u1 (zscore_f sigma mu (opt 0 t) (opt 1 f) (opt 0 s) (opt 1 e))
+  | NormalizeCat raws normals d => u1 (fun x => Some (lookup_cat raws normals d x))
+  | NormalizeCurve raws normals => u1 (interp (curve_pts raws normals))
+  | NormalizeMeanToMid iz normals => u1 (interp (mtm_pts iz normals vals))
+  | NormalizeCurveZScore sigma zs normals => u1 (interp (cz_pts sigma mu zs normals))
+  | CvtToFuzzy t f d =>
+      match ctf_thresholds t f d vals with
+      | Some (tv, fv) => u1 (fun x => ofz (lin tv 1 fv (-1) x))
+      | None => fun _ => None
+      end
+  | CvtToFuzzyZScore sigma t f => u1 (fun x => ofz (zscore_f sigma mu (opt 1 t) (opt (-1) f) (-1) 1 x))
+  | CvtToFuzzyCat raws fuzzies d => u1 (fun x => Some (fz (lookup_cat raws fuzzies d x)))
+  | CvtToFuzzyCurve raws fuzzies => u1 (fun x => ofz (interp (curve_pts raws fuzzies) x))
+  | CvtToFuzzyMeanToMid iz fuzzies => u1 (fun x => ofz (interp (mtm_pts iz fuzzies vals) x))
+  | CvtToFuzzyCurveZScore sigma zs fuzzies => u1 (fun x => ofz (interp (cz_pts sigma mu zs fuzzies) x))
+  | CvtToBinary thr d =>
+      u1 (fun x => Some (fz (match d with DirHighToLow => if Qlt_le_dec x thr then 1 else 0
+                                        | _ => if Qlt_le_dec x thr then 0 else 1 end)))
+  | FuzzyUnion => fun vs => Some (fz (qmean vs))
+  | FuzzyWeightedUnion ws => fun vs => ofz (divq (wsum (wvals ws) vs) (qsum (wvals ws)))
+  | FuzzySelectedUnion truest k =>
+      match truest with Some tr => sel_union tr (Z.to_nat k) | None => fun _ => None end
+  | FuzzyOr => fun vs => ofz (qmaxl vs)
+  | FuzzyAnd => fun vs => ofz (qminl vs)
+  | FuzzyXOr => xor_cell
+  | FuzzyNot => u1 (fun x => Some (fz (- x)))
+  | CvtFromFuzzy t f => u1 (lin 1 t (-1) f)
+  end.
 
 Definition run (c : ecmd) (ins : list arr) : res arr :=
-  match c with
-  | Copy => one ins (fun a => ROk a)
-  | AMinusB => match ins with [_; _] => nary (join_dt ins) c_sub ins | _ => RErr EUnexpected end
-  | ADividedByB => match ins with [_; _] => nary DFloat c_div ins | _ => RErr EUnexpected end
-  | Sum => nary (join_dt ins) (fun vs => Some (qsum vs)) ins
-  | Multiply => nary (join_dt ins) (fun vs => Some (fold_right Qmult 1 vs)) ins
-  | Minimum => nary (join_dt ins) qminl ins
-  | Maximum => nary (join_dt ins) qmaxl ins
-  | Mean => nary DFloat (fun vs => Some (qmean vs)) ins
-  | WeightedSum ws =>
-      weighted ins ws (nary (if all_int ins && ws_int ws then DInt else DFloat) (fun vs => Some (wsum (map fst ws) vs)) ins)
-  | WeightedMean ws =>
-      weighted ins ws (nary DFloat (fun vs => divq (wsum (map fst ws) vs) (qsum (map fst ws))) ins)
-  | Normalize s e =>
-      one ins (fun a =>
-        let vals := somes (a_cells a) in
-        match qminl vals, qmaxl vals with
-        | Some lo, Some hi =>
-            let s := opt 0 s in let e := opt 1 e in
-            ROk (unary DFloat (fun x => match divq ((x - lo) * (s - e)) (lo - hi) with Some q => Some (q + s) | None => None end) a)
-        | _, _ => RErr EUnexpected
-        end)
-  | NormalizeZScore sigma t f s e => one ins (fun a => ROk (zscore sigma (opt 0 t) (opt 1 f) (opt 0 s) (opt 1 e) a))
-  | NormalizeCat raws normals d => one ins (cat raws normals d)
-  | NormalizeCurve raws normals => one ins (curve raws normals)
-  | NormalizeMeanToMid iz normals => one ins (mean_to_mid iz normals)
-  | NormalizeCurveZScore sigma zs normals => one ins (curve_zscore sigma zs normals)
-  | CvtToFuzzy t f d => one ins (cvt_to_fuzzy t f d)
-  | CvtToFuzzyZScore sigma t f => one ins (fun a => fzres (ROk (zscore sigma (opt 1 t) (opt (-1) f) (-1) 1 a)))
-  | CvtToFuzzyCat raws fuzzies d => one ins (fun a => fzres (cat raws fuzzies d a))
-  | CvtToFuzzyCurve raws fuzzies => one ins (fun a => fzres (curve raws fuzzies a))
-  | CvtToFuzzyMeanToMid iz fuzzies => one ins (fun a => fzres (mean_to_mid iz fuzzies a))
-  | CvtToFuzzyCurveZScore sigma zs fuzzies => one ins (fun a => fzres (curve_zscore sigma zs fuzzies a))
-  | CvtToBinary thr d => one ins (fun a => fzres (cvt_to_binary thr d a))
-  | FuzzyUnion => nary DFloat (fun vs => Some (fz (qmean vs))) ins
-  | FuzzyWeightedUnion ws =>
-      weighted ins ws (nary DFloat (fun vs => match divq (wsum (map fst ws) vs) (qsum (map fst ws)) with
-                                              | Some q => Some (fz q) | None => None end) ins)
-  | FuzzySelectedUnion truest k =>
-      match validate_shapes ins with
-      | Some e => RErr e
-      | None =>
-        if (Z.of_nat (length ins) <? k)%Z then RErr EInvalidNumber
-        else match truest with
-             | None => RErr EInvalidTruest
-             | Some tr => if (k <? 1)%Z then RErr EUnexpected     (* k <= 0: outside the definition *)
-                          else nary DFloat (sel_union tr (Z.to_nat k)) ins
-             end
-      end
-  | FuzzyOr => nary DFloat (fun vs => option_map fz (qmaxl vs)) ins
-  | FuzzyAnd => nary DFloat (fun vs => option_map fz (qminl vs)) ins
-  | FuzzyXOr => match validate_shapes ins with
-                | Some e => RErr e
-                | None => match ins with [_] => RErr EUnexpected | _ => nary DFloat xor_cell ins end
-                end
-  | FuzzyNot => one ins (fun a => ROk (unary DFloat (fun x => Some (fz (- x))) a))
-  | CvtFromFuzzy t f => one ins (cvt_from_fuzzy t f)
+  match pre c ins with
+  | Some e => RErr e
+  | None => ROk {| a_dt := odt c ins; a_shape := first_shape ins;
+                   a_cells := cw (colf c ins) (cols_of (map a_cells ins)) |}
   end.
+
+(* the command name as registered by the code (class name) *)
+From Coq Require Import String.
+Definition cmd_name (c : ecmd) : string :=
+  match c with
+  | Copy => "Copy" | AMinusB => "AMinusB" | Sum => "Sum" | WeightedSum _ => "WeightedSum" | Multiply => "Multiply"
+  | ADividedByB => "ADividedByB" | Minimum => "Minimum" | Maximum => "Maximum" | Mean => "Mean"
+  | WeightedMean _ => "WeightedMean" | Normalize _ _ => "Normalize" | NormalizeZScore _ _ _ _ _ => "NormalizeZScore"
+  | NormalizeCat _ _ _ => "NormalizeCat" | NormalizeCurve _ _ => "NormalizeCurve"
+  | NormalizeMeanToMid _ _ => "NormalizeMeanToMid" | NormalizeCurveZScore _ _ _ => "NormalizeCurveZScore"
+  | CvtToFuzzy _ _ _ => "CvtToFuzzy" | CvtToFuzzyZScore _ _ _ => "CvtToFuzzyZScore" | CvtToFuzzyCat _ _ _ => "CvtToFuzzyCat"
+  | CvtToFuzzyCurve _ _ => "CvtToFuzzyCurve" | CvtToFuzzyMeanToMid _ _ => "CvtToFuzzyMeanToMid"
+  | CvtToFuzzyCurveZScore _ _ _ => "CvtToFuzzyCurveZScore" | CvtToBinary _ _ => "CvtToBinary"
+  | FuzzyUnion => "FuzzyUnion" | FuzzyWeightedUnion _ => "FuzzyWeightedUnion" | FuzzySelectedUnion _ _ => "FuzzySelectedUnion"
+  | FuzzyOr => "FuzzyOr" | FuzzyAnd => "FuzzyAnd" | FuzzyXOr => "FuzzyXOr" | FuzzyNot => "FuzzyNot"
+  | CvtFromFuzzy _ _ => "CvtFromFuzzy"
+  end%string.
